@@ -309,10 +309,19 @@ def paired(M, T, files, kind: str, pos: str, faults: Tuple[str, ...], raise_in_b
 
                 sys.setprofile(other_profiler)
                 before = sys.getprofile()
-            with cm:
-                traced = observe(T, thunk, False)
-                if raise_in_block:
-                    raise KeyError("program's own exception")
+            # (with faults and no other profiler: the program runs with warnings turned into errors, as under `-W error` -
+            # whatever MonkeyType reports about a contained failure must not become an exception in the program)
+            import contextlib
+            import warnings
+
+            strict = warnings.catch_warnings() if (faults and not with_profiler) else contextlib.nullcontext()
+            with strict:
+                if faults and not with_profiler:
+                    warnings.simplefilter("error")
+                with cm:
+                    traced = observe(T, thunk, False)
+                    if raise_in_block:
+                        raise KeyError("program's own exception")
         except KeyError as e:
             if not raise_in_block or "program's own exception" not in str(e):
                 escaped = e
